@@ -7,6 +7,7 @@
               mst/mflag (model's expectation: a difference is DRIFT, not a violation), afterstops (the
               C10_after_stops antecedent holds in the model state), quiet, census (live core-loop / producer
               goroutines of this scenario)
+     Held     name, held: the vheld hook -- whether the source-state lock is held at the point where Stop / Start act on the state read
      Diverged the code did not follow the scripted step (reported by the runner as drift unless End shows harm)
      End      hangs = calls that never returned after every gate was opened and a final Stop was issued (role,
               blocking frame), finalstop, st, flag, probe (restart of the same source object), census, returns *)
@@ -54,6 +55,9 @@ Step ==
             /\ UNCHANGED scen
        [] e.ev = "Panic" -> Report(l, {"C10_nocrash"}, scen) /\ UNCHANGED scen     \* a panic in the core loop (caught by the recover hook; it kills the server otherwise)
        [] e.ev = "Crash" -> Report(l, {"C10_nocrash"}, scen) /\ UNCHANGED scen     \* the process died in this scenario (panic in a goroutine of the code)
+       \* hook vheld: Stop (Start) is about to act on the state it read; StopCall / StartCall are atomic actions of Lifecycle.tla,
+       \* which the code implements by deciding and acting under the source-state lock
+       [] e.ev = "Held" -> Report(l, Iff(~e.held, IF e.name = "Stop.active" THEN "C10_stop_atomic" ELSE "C10_start_atomic"), scen) /\ UNCHANGED scen
        [] e.ev = "Diverged" -> PrintT(<<"DIVERGED", l, e.a, scen>>) /\ UNCHANGED scen
        [] e.ev = "End" -> Report(l, EndPreds(e), scen) /\ UNCHANGED scen
        [] e.ev = "UDPStep" ->
